@@ -1835,11 +1835,27 @@ def c01i(F, R):
         if ok:
             locv, val = r[1]
             ok = isinstance(locv, tuple) and locv[:2] == ("call", "StackOffset") and locv[2] == 8 and \
-                isinstance(val, tuple) and val[0] == "call" and val[2] == rs2
+                isinstance(val, tuple) and val[0] == "call" and val[2] == rs2 and (len(val) < 4 or val[3] == 0)
         if ok:
             R.ok(key, detail=f"sw {rs2.lower()}, 8(sp) -> slot 8 := {val[1]}({rs2}, {val[3] if len(val) > 3 else ''})")
         else:
             R.bad(key, f"`sw {rs2.lower()}, 8(sp)` generates {r}: not the slot `8` holding the stored register", gp["sp"])
+    # CSR writes: `csrrw rd, csr, rs1` puts exactly rs1 (+0) into the CSR, `csrrwi rd, csr, imm` exactly imm
+    gp = F.fn(F.method(PNODE, "gen_memory_value", trait="HasGenValueInfo"))
+    for v, env, want_val in (("Csr", {"inst": "Csrrw", "rd": "X5", "rs1": "X6", "csr": 64}, ("RegisterWithScalar", "X6", 0)),
+                             ("CsrI", {"inst": "Csrrwi", "rd": "X5", "imm": 9, "csr": 64}, ("Constant", 9))):
+        key = f"{v}|{env['inst']}"
+        try:
+            r = eval_prop_full(F, "gen_memory_value", v, env, trait="HasGenValueInfo")
+        except Unx as ex:
+            R.bad(key + "|unextractable", f"UNEXTRACTABLE: gen_memory_value for {v} {env}: {ex}", gp["sp"])
+            continue
+        okk = isinstance(r, tuple) and r[0] == "some" and isinstance(r[1], tuple) and len(r[1]) == 2 and isinstance(r[1][1], tuple) and r[1][1][0] == "call" \
+            and r[1][1][1] == want_val[0] and tuple(r[1][1][2:]) == tuple(want_val[1:]) and isinstance(r[1][0], tuple) and r[1][0][:2] == ("call", "CsrRegister")
+        if okk:
+            R.ok(key, detail=f"{env['inst'].lower()} writes {want_val} into the CSR's slot")
+        else:
+            R.bad(key, f"`{env['inst'].lower()}` generates the memory fact {r}; the instruction writes {want_val} into the CSR", gp["sp"])
 
 
 @rule("C11", "C11.f.markup-runs-on-the-pruned-graph", floor=1)
